@@ -417,3 +417,70 @@ def build_eam(tier):
     return [Obligation('eam.create_actor', run_create_actor, props_create_actor,
                        descr='a contract is deployed only at an assignable address, over nothing, a placeholder (Exec4 through init) or a dead EVM actor (Resurrect); the endowment is forwarded in full',
                        bounds='one call; arbitrary creator / target address / init code; CUT: can_assign_address (arbitrary verdict; byte-level ranges by Kani)', max_paths=20000)]
+
+
+# ---- SSTORE/SLOAD and TSTORE/TLOAD: what a later load returns (C17, instruction level) -------------------------------
+
+def run_store_load(transient):
+    store, load = ('tstore', 'tload') if transient else ('sstore', 'sload')
+
+    def run(E):
+        rt, rtref = C19.setup(E, readonly=False)
+        sysv = C19.okv(E, C19.call(E, 'load', [rtref]), 'load failed')
+        SY = C19.SYSF()
+        cell = Cell(sysv, 'system')
+        xs = Cell(LazyV('xs', XS), 'xs')
+        k, v, k2 = _words(E, 'k', 'v', 'k2')
+        env = E.ctx.env
+        env.update(dict(sys0=sysv, k=k, v=v, k2=k2, transient=transient, ro=fget(E, sysv, SY['readonly'], 'bool')))
+        r = E.run_function(ifn(E, store, None), [RefV(xs, (), True), RefV(cell, (), True), k, v])
+        env['store_result'] = r
+        if not is_ok(r):
+            return r, rt
+        g = E.run_function(ifn(E, load, None), [RefV(xs, (), True), RefV(cell, (), True), k2])
+        return g, rt
+    return run
+
+
+def props_store_load(E, res):
+    from mirsym.models_fvm import key_term
+    env = res.ctx.env
+    ctx = res.ctx
+    rt = env['rt']
+    if res.kind == 'early':
+        return []
+    if res.kind != 'return':
+        return [('no panic (%s)' % str(res.info)[:60], False)]
+    ro = env['ro']
+    ro = ro if is_sym(ro) else z3.BoolVal(bool(ro))
+    if not is_ok(env['store_result']):
+        return [('a store fails only in a read-only activation (a dead contract is loaded read-only)', ro)]
+    if not is_ok(res.value):
+        return [('a load after a store does not fail', False)]
+    SF = C19.SFe()
+    got = res.value.fields[('Ok', 0)]
+    kt, kt2 = key_term(E, env['k']), key_term(E, env['k2'])
+    st0 = env['st0']
+    if env['transient']:
+        m_ok, cid = C19.td_view(E, st0, rt)
+        if cid is None or m_ok is False or (is_sym(m_ok) and implied(ctx, z3.Not(m_ok))):
+            old = [z3.IntVal(0)] * 4
+        else:
+            live = C19.word_view(E, cid, kt2)
+            old = live if (m_ok is True or implied(ctx, m_ok)) else [z3.If(m_ok, x, 0) for x in live]
+    else:
+        old = C19.word_view(E, E.deref(fget(E, st0, SF['contract_state'], CID)), kt2)
+    same = key_eq(kt, kt2)
+    vl = word_limbs(E, env['v'])
+    exp = vl if (same is True or implied(ctx, same)) else (old if (same is False or implied(ctx, b_not(same))) else [z3.If(same, a_, b_) for a_, b_ in zip(vl, old)])
+    nm = 'TLOAD after TSTORE' if env['transient'] else 'SLOAD after SSTORE'
+    return [('%s: the stored word at the same key, the previous content (zero if none; for transient storage only content of the current top-level message) at any other key' % nm,
+             C19.word_is(E, got, exp)),
+            ('no message is sent and nothing is committed by a store or load', len(rt.sends) == 0 and rt.commits == 0)]
+
+
+def build_store_load(tier):
+    return [Obligation('evm.%s' % ('tstore; tload' if tr else 'sstore; sload'), run_store_load(tr), props_store_load,
+                       descr='a load returns the word stored at that key by the preceding store (zero deletes), any other key keeps its content',
+                       bounds='one store + one load; arbitrary stored contract state, 256-bit keys and values (four limbs)', max_paths=100000)
+            for tr in (False, True)]
